@@ -27,7 +27,19 @@ inline void childFail(const char* kind, const char* detail) {
   childWrite(m);
   _exit(1);
 }
+// Harnesses whose programs may legitimately end with blocked threads (a wait nobody answers) install a judge: it is called on
+// a deadlock verdict and returns true (with kind / message) if the blocked state violates the property, false if it is an
+// acceptable quiescent end of the run.
+static bool (*g_deadlockJudge)(const char* detail, std::string& kind, std::string& msg) = nullptr;
 inline void onVerdict(vsched::Verdict v, const char* detail) {
+  if (v == vsched::V_DEADLOCK && g_deadlockJudge) {
+    std::string kind, msg;
+    if (g_deadlockJudge(detail, kind, msg)) childFail(kind.c_str(), (msg + " | " + detail).c_str());
+    const vsched::Stats& st = vsched::stats();
+    char b[256]; snprintf(b, sizeof b, "L quiescent_end\nS %ld %ld %ld %ld %ld %ld %ld %ld\nO\n", st.decisions, st.switches, st.spurious, st.timeoutsFired, st.eintr, st.maxThreads, st.preemptions, st.interleavedShared);
+    childWrite((g_childLabels ? *g_childLabels : std::string()) + b);
+    _exit(0);
+  }
   if (v == vsched::V_DEADLOCK) childFail("deadlock", detail);
   std::string m = std::string("I step-bound\nD ") + detail + "\n"; childWrite(m); _exit(2);
 }
